@@ -97,6 +97,14 @@ POOLS = {
                                          ("a", [10.0, 20.0, 30.0], "cm", None, None)], units=["m", "cm", "cm2"]),
     "array_uncertainty_both": dict(objs=[("a", [1.0, 2.0, 3.0], "m", [0.1, 0.2, 0.4], None),
                                          ("a", [10.0, 20.0, 30.0], "cm", None, 10.0)], units=["m", "cm", "cm2"]),
+    # unit expressions that repeat a dimension: rebase() really merges units and rescales here (everywhere else it is
+    # a no-op), so the in-place rebase step on results / operands can show a shared unit object
+    "repeated_dim":             dict(objs=[("f", 2.0, "m*cm", None, None), ("f", 3.0, "km*m", None, None)],
+                                     units=["m2", "cm2", "m*cm"]),
+    "repeated_dim_array":       dict(objs=[("a", [1.0, 2.0, 3.0], "m*cm", None, None),
+                                           ("a", [10.0, 20.0, 30.0], "km*m", None, None)], units=["m2", "cm2", "km*m"]),
+    "repeated_dim_uncertainty": dict(objs=[("f", 2.0, "cm*m*dm", 0.1, None), ("f", 5.0, "m*cm*dm", None, 10.0)],
+                                     units=["m3", "cm3", "dm3"]),
     "temperature":   dict(objs=[("f", 20.0, "Cel", None, None), ("f", 300.0, "K", None, None)],
                           units=["K", "Cel", "degF"]),
     "three":         dict(objs=[("f", 2.0, "m", None, None), ("f", 50.0, "cm", None, None), ("f", 4.0, "s", None, None)],
@@ -110,7 +118,10 @@ FEATURES = {
     "array": ["array", "different-unit"], "array_scalar": ["array", "different-unit"],
     "uncertainty": ["uncertainty", "different-unit"],
     "array_uncertainty": ["array", "uncertainty", "different-unit"],
-    "array_uncertainty_both": ["array", "uncertainty", "different-unit"], "temperature": ["temperature", "different-unit"],
+    "array_uncertainty_both": ["array", "uncertainty", "different-unit"],
+    "repeated_dim": ["repeated-dimension", "different-unit"],
+    "repeated_dim_array": ["repeated-dimension", "array", "different-unit"],
+    "repeated_dim_uncertainty": ["repeated-dimension", "uncertainty", "different-unit"], "temperature": ["temperature", "different-unit"],
     "three": ["different-unit", "three-operands"],
 }
 
@@ -539,9 +550,10 @@ def finish(total, tier, seed):
 
 
 MANIFEST = dict(
-    text="Explicit-state exploration on live Quantity objects: from 18 operand pools (same unit, different unit, "
+    text="Explicit-state exploration on live Quantity objects: from 21 operand pools (same unit, different unit, "
          "compound, dB, dBm, angle, percent, plain numbers, Decimal left/right/both, arrays, array+scalar, uncertainties, "
-         "arrays with per-element uncertainties (exact / uncertain partner), "
+         "arrays with per-element uncertainties (exact / uncertain partner), unit expressions repeating a dimension "
+         "(m*cm, km*m, cm*m*dm; scalar, array, with uncertainty) so that rebase() does real work, "
          "temperatures, three operands) every history of length 1 and 2 over the complete alphabet (8 binary operators "
          "and comparisons incl. linspace/logspace on every ordered pair, 32 unary forms incl. reflected arithmetic with "
          "plain numbers, powers, indexing and 16 NumPy functions, value queries in 3 units, and the in-place methods "
